@@ -29,14 +29,14 @@ pub fn reference_parse(fmt: Fmt, bytes: &[u8]) -> Declared {
         Fmt::Cbor => serde_cbor::from_slice::<Doc>(bytes).ok(),
     };
     if let Some((n, e)) = full {
-        return Declared::Full(n.iter().map(|x| (x.0, x.1.p)).collect(), e);
+        return Declared::Full(n.iter().map(|x| (x.0, x.1.p())).collect(), e);
     }
     let one: Option<(Vec<(Key, NVal)>,)> = match fmt {
         Fmt::Json => serde_json::from_slice(bytes).ok(),
         Fmt::Cbor => serde_cbor::from_slice(bytes).ok(),
     };
     if let Some((n,)) = one {
-        return Declared::Full(n.iter().map(|x| (x.0, x.1.p)).collect(), vec![]);
+        return Declared::Full(n.iter().map(|x| (x.0, x.1.p())).collect(), vec![]);
     }
     let zero: Option<[u8; 0]> = match fmt {
         Fmt::Json => serde_json::from_slice(bytes).ok(),
